@@ -23,7 +23,7 @@ func init() {
 		Assumptions: []string{"Of/OfMany compared only on ascending (merged) lists, sizes >= 0, positions >= 0 (Of's stated domain)", "Builder compared as a set; extra zero words are allowed",
 			"Get/Get1 probed only inside the bitmap"},
 		Flavours: releaseAnd386,
-		Required: []string{"long-run/calls>=100000-per-function", "arguments-in-read-only-memory", "of/empty-list", "of/n-absent", "of/n-absent-as-empty-non-nil-variadic", "of/n-negative", "of/n<last+1", "of/n>last+1", "of/last%64=63", "of/last%64=0", "probe/negative", "probe/beyond", "probe/maxint32", "probe/minint32",
+		Required: []string{"long-run/calls>=100000-per-function", "builder/hint-near-maxint32", "arguments-in-read-only-memory", "of/empty-list", "of/n-absent", "of/n-absent-as-empty-non-nil-variadic", "of/n-negative", "of/n<last+1", "of/n>last+1", "of/last%64=63", "of/last%64=0", "probe/negative", "probe/beyond", "probe/maxint32", "probe/minint32",
 			"ofmany/pos>=size", "ofmany/size=0", "ofmany/empty-sub", "ofmany/segments-carved-from-one-arena", "ofmany/shifted-list-not-ascending", "builder/extend-pos>=size", "builder/extend-size=0", "builder/extend-empty", "builder/set-0", "builder/set-1", "builder/presized", "builder/over-dirty-capacity", "roundtrip/trailing-zero-words", "probe/bitmap>=2^31-bits"},
 		Families: func(c *mon.Config) []mon.Family {
 			return []mon.Family{
@@ -528,7 +528,12 @@ func c12Builder(w *mon.W, idx int) {
 	if pre > 0 {
 		w.Bucket("builder/presized")
 	}
-	w.Op, w.Obj = "NewBuilder", nil
+	if idx%997 == 11 {
+		// the size hint is an int32: its largest values (the builder is then used like any other; the capacity is never touched)
+		pre = int32(r.Pick(1<<31-1, 1<<31-2, 1<<31-63, 1<<31-64, 1<<31-65, 1<<30))
+		w.Bucket("builder/hint-near-maxint32")
+	}
+	w.Op, w.A, w.Obj = "NewBuilder", int64(pre), nil
 	b := bitmap.NewBuilder(pre)
 	if idx%5 == 4 {
 		// a builder laid over a recycled scratch buffer: Words is empty but its capacity still holds
